@@ -36,6 +36,7 @@ class Config:
         self.point_apps = []
         self.collision_free = False
         self.real_hash_for_concrete = True
+        self.log2_apps = []            # (n term, result term) of the log2 stub on this path
 
 
 CONFIG = Config()
@@ -133,6 +134,7 @@ def stub_floor(x):
                 cases.append(z3.And(rng, z3.Or(lv == k, lv == k + 1)))
         e.add(z3.Or(*cases))
         res = SymInt(lv)
+        CONFIG.log2_apps.append((n.t, lv))
         e.run_cache[key] = (n.t, res)
         return res
     if isinstance(x, SymRatio):
@@ -404,3 +406,14 @@ def install(pkg):
     pkg.AMHL.__dict__.update(sha256=stub_sha256, nacl=nacl_ns, token_bytes=stub_token_bytes)
     pkg.tools.__dict__.update(sha256=stub_sha256, shake_256=stub_shake_256, SigningKey=StubSigningKey,
                               VerifyKey=StubVerifyKey, time=stub_time, nacl=nacl_ns, struct=StubStruct)
+
+
+def witness_refinement(model):
+    """constraints that pin the nondeterministic stubs to what the real environment does for the values
+    of `model` (so that a witness replay compares like with like); [] if nothing to pin"""
+    out = []
+    for n, lv in CONFIG.log2_apps:
+        nv = model.eval(n, model_completion=True).as_long()
+        if nv >= 1:
+            out.append(lv == math.floor(math.log2(nv)))
+    return out
